@@ -41,6 +41,7 @@ def dependent_gen(eng, table):
 def setup_world(eng, nmax, with_d, fixed_n=None, vary_bounds=True, fix=None):
     table = gen_table(eng, nmax, fixed_n=fixed_n, vary_bounds=vary_bounds,
                       fix={k: v for k, v in (fix or {}).items() if k not in ('dependent', 'declarations')} or None)
+    table.desc['gsup'] = (fix or {}).get('gsup', 0)
     table.desc['vary_bounds'] = vary_bounds
     w = table.world()
     if not table_ok(table, w):
@@ -88,7 +89,17 @@ def queries(table, w, depth):
     return table, w, ts
 
 
-def h_search(eng, fn, nmax, depth, with_d, fixed_n=None, vary_bounds=True, builtins=True, fix=None, qshapes=None):
+def _first_plain(seq):
+    """a choice that is no longer symbolic takes the first candidate that needs no further instantiation"""
+    for i, x in enumerate(seq):
+        t = x.get_type() if hasattr(x, 'get_type') and not isinstance(x, tp.Type) else x
+        if not (isinstance(t, tp.Type) and t.is_type_constructor()):
+            return i
+    return 0
+
+
+def h_search(eng, fn, nmax, depth, with_d, fixed_n=None, vary_bounds=True, builtins=True, fix=None, qshapes=None,
+             sym_draws=None):
     sw = setup_world(eng, nmax, with_d, fixed_n, vary_bounds, fix)
     if sw is None:
         return [Ob('skip', True)]
@@ -120,7 +131,7 @@ def h_search(eng, fn, nmax, depth, with_d, fixed_n=None, vary_bounds=True, built
         bound = table.classes[0]
     dis_usv = bool(eng.fresh_bool('dis_use_site_variance'))
     exc = None
-    with installed(eng) as rnd, config(dis__use_site_variance=dis_usv):
+    with installed(eng, max_sym_draws=sym_draws, fixed_pick=_first_plain) as rnd, config(dis__use_site_variance=dis_usv):
         try:
             if fn == 'find_subtypes':
                 res = tu.find_subtypes(q, list(pool), include_self=include_self, concrete_only=concrete)
@@ -233,6 +244,13 @@ def jobs(tier):
                                               fix=dict(hvar=0))),
                 ('find_subtypes', dict(nmax=2, depth=2, with_d=False, fixed_n=2, vary_bounds=False, builtins=False,
                                        fix=dict(hvar=0, ext=[1])))]
+    # a bounded parameter whose bound has a generic subclass: H<Y : A> : A and G<X> : A, class-declaration pools
+    plan.append(('find_subtypes', dict(nmax=2, depth=1, with_d=False, fixed_n=2, vary_bounds=True, builtins=False,
+                                       fix=dict(gvar=0, hvar=0, hsup=1, gsup=1, declarations=True), sym_draws=5,
+                                       qshapes=['A', 'B', 'H<A>', 'H<B>', 'H<out A>', 'G<A>'])))
+    plan.append(('find_irrelevant_type', dict(nmax=2, depth=1, with_d=False, fixed_n=2, vary_bounds=True, builtins=False,
+                                              fix=dict(gvar=0, hvar=0, hsup=1, gsup=1, declarations=True), sym_draws=5,
+                                              qshapes=['A', 'B', 'TV', 'TU', 'TW'])))
     plan.append(('find_subtypes', dict(nmax=2, depth=2, with_d=False, fixed_n=2, vary_bounds=False, builtins=False,
                                        fix=dict(gvar=2, hvar=0),
                                        qshapes=['H<in H<out B>>', 'G<H<in Any>>', 'H<in G<out A>>', 'H<out H<in B>>',
@@ -249,7 +267,10 @@ def jobs(tier):
                               % (('(fixed selectors: %s) ' % prm['fix'] if prm.get('fix') else '') + ('' if prm.get('fixed_n') else '<='), prm['nmax'],
                                  '[:A]' if prm.get('vary_bounds', True) else '', '[:A]' if prm.get('vary_bounds', True) else '',
                                  ', optional D<Q[:A]> : G<..>' if fn == 'find_irrelevant_type' else '', prm['depth'],
-                                 ' restricted to the query shapes %s' % prm['qshapes'] if prm.get('qshapes') else ''),
+                                 (' restricted to the query shapes %s' % prm['qshapes'] if prm.get('qshapes') else '')
+                                 + ('; RNG: every outcome of the first %d draws, later draws take the first candidate that is not a generic class (with a pool of class '
+                                    'declarations the nesting of instantiations is not bounded by the code)' % prm['sym_draws']
+                                    if prm.get('sym_draws') else '')),
                        outside=OUT))
     return out
 
